@@ -15,6 +15,7 @@ from pyvc.state import fresh_val
 
 HERE = os.path.dirname(os.path.abspath(__file__))
 Thread, Res, Line = usort('Thread'), usort('SubResult'), usort('OutLine')
+from pyvc.vals import VOpt as VOpt  # noqa: E402
 I = z3.IntSort()
 tidx = z3.Function('thread_index', Thread, I)
 rthread = z3.Function('thread_of_result', Res, Thread)
@@ -178,6 +179,41 @@ RESUME = {
 }
 
 
+# ---- the result collectors: what of a child's stdout becomes part of the layer's block ---------------------------------
+# (sentence 1 of C06: a -j N run prints the same output as the sequential run -- minus the keep-alive dot lines, and
+# nothing else.)  `_is_dots` is an abstract predicate here; what it means is the regex lemma registered below.
+isdots = z3.Function('is_dots_line', Line, z3.BoolSort())
+
+
+def is_dots_rule(E, st, node, args, kws, k):
+    return k(st, VOpt(z3.Not(isdots(args[0].z)), VObj('Match', z3.Const(fresh_name('match'), usort('Match')))))
+is_dots_rule.__name__ = '_is_dots(line): a match object iff the line is a keep-alive line (predicate is_dots; its meaning: regex lemma)'
+
+
+def queue_put_rule(E, st, node, args, kws, k):
+    st.ghost['marks'] = VInt(st.ghost['marks'].z + 1)
+    return k(st, NONE)
+queue_put_rule.__name__ = 'self.queue.put(item): one activity mark for the parent (ghost G.marks += 1)'
+queue_put_rule.modifies = ['G.marks']
+
+KEPT = ("len(self.stdout) == old(len(self.stdout)) + ite(is_dots(out), 0, 1) and"
+        " forall(q, Int, implies(0 <= q and q < old(len(self.stdout)), self.stdout[q] == old(self.stdout)[q])) and"
+        " implies(not is_dots(out), self.stdout[old(len(self.stdout))] == out)")
+DEFERRED_WRITE = {
+    'property': ['C06'], 'params': {'out': 'OutLine'}, 'self_fields': {'stdout': 'List[OutLine]', 'queue': 'Any', 'layer_name': 'Str'},
+    'ghost': {'marks': 'int'},
+    'requires': [], 'modifies': ['self.stdout'],
+    # every line of the child that is not a keep-alive line is kept, in order, unchanged; nothing else is
+    'ensures': [KEPT, "G.marks == old(G.marks)"],
+    'raises': {},
+    'rules': {'_is_dots': is_dots_rule},
+}
+KEEPALIVE_WRITE = dict(DEFERRED_WRITE, modifies=['self.stdout', 'G.marks'],
+                       # ... and a keep-alive line becomes exactly one activity mark, never part of the block
+                       ensures=[KEPT, "G.marks == old(G.marks) + ite(is_dots(out), 1, 0)"],
+                       rules={'_is_dots': is_dots_rule, 'self.queue.put': queue_put_rule, 'out.strip': 'fresh:Any'})
+
+
 def register(E):
     E.load_sidecar(os.path.join(HERE, 'common.py'))
     E.load_sidecar(os.path.join(HERE, 'vocab_layers.py'))
@@ -210,3 +246,14 @@ def register(E):
         "is at most N, hence at most N layer subprocesses are alive (one subprocess per thread, reaped in its finally)",
     ]
     E.add_contract('runner.resume_tests', RESUME)
+    E.truthy_sorts['Match'] = 'always'
+    E.specfuncs['is_dots'] = lambda eng, st, l: VBool(isdots(l.z))
+    E.add_contract('runner.DeferredSubprocessResult.write', DEFERRED_WRITE)
+    E.add_contract('runner.KeepaliveSubprocessResult.write', KEEPALIVE_WRITE)
+    # what a keep-alive line is: one or more dots directly followed by a line end (CR, LF or CRLF) -- and nothing that merely
+    # starts with a dot.  Lemma on the real pattern text, in z3's regular-expression theory (language equality).
+    from pyvc import relemma
+    E.regex_lemma("_is_dots accepts exactly the lines that start with dots followed by a line end (keep-alive lines); no other "
+                  "output line of a child is dropped from its layer's block", 'runner', '_is_dots',
+                  z3.Concat(z3.Plus(z3.Re(z3.StringVal('.'))), z3.Union(relemma._ch(13), relemma._ch(10)),
+                            z3.Star(relemma.any_char())), mode='match', props=('C06',))
